@@ -442,6 +442,114 @@ def _coil_sites_text():
     return "def coil_sites : List Cx.CoilSite := [\n" + ",\n".join(out) + "]\n", f"translated ({len(rows)} sites: {kinds})"
 
 
+# =================================================================================================
+# statelessness of the helpers reachable from the C02 operators (structural table `helper_state_uses`)
+C02_ROOTS = ("complex_multiplication", "complex_division", "safe_divide", "conjugate", "modulus", "modulus_if_complex",
+             "complex_dot_product", "_complex_matrix_multiplication", "complex_mm", "complex_bmm", "tensor_to_complex_numpy",
+             "root_sum_of_squares", "reduce_operator", "expand_operator", "view_as_complex", "view_as_real")
+_CACHE_WORDS = ("cache", "memo")
+
+
+def _module_info(repo, rel, _memo={}):
+    """-> (tree, local function defs, imported direct.* names {name: (rel file, name)}, module-level mutable names)"""
+    import warnings
+
+    key = (str(repo), rel)
+    if key in _memo:
+        return _memo[key]
+    with warnings.catch_warnings():
+        warnings.simplefilter("ignore")
+        try:
+            tree = ast.parse((repo / rel).read_text())
+        except (OSError, SyntaxError) as e:
+            raise Untranslatable(f"{rel}: {e}")
+    defs = {n.name: n for n in tree.body if isinstance(n, ast.FunctionDef)}
+    imported = {}
+    for n in tree.body:
+        if isinstance(n, ast.ImportFrom) and n.module and n.module.split(".")[0] == "direct" and n.level == 0:
+            base = n.module.replace(".", "/")
+            f = base + ".py" if (repo / (base + ".py")).exists() else base + "/__init__.py"
+            if (repo / f).exists():
+                for a in n.names:
+                    imported[a.asname or a.name] = (f, a.name)
+    state = {}
+    for n in tree.body:                     # module-level bindings that are not constants / imports / defs / classes
+        targets = n.targets if isinstance(n, ast.Assign) else [n.target] if isinstance(n, (ast.AnnAssign, ast.AugAssign)) else []
+        val = getattr(n, "value", None)
+        for t in targets:
+            for nm in [x for x in ast.walk(t) if isinstance(x, ast.Name)]:
+                if nm.id == "__all__":
+                    continue
+                immutable = isinstance(val, ast.Constant) or (isinstance(val, ast.Tuple) and all(isinstance(e, ast.Constant) for e in val.elts)) \
+                    or (isinstance(val, ast.UnaryOp) and isinstance(val.operand, ast.Constant))
+                if not immutable:
+                    state[nm.id] = ast.unparse(val)[:40] if val is not None else ""
+    _memo[key] = (tree, defs, imported, state)
+    return _memo[key]
+
+
+def scan_helper_state(repo, rel=T, roots=C02_ROOTS):
+    """-> (closure [(file, function)], uses [(function, kind, detail)]): every function reachable from the C02 operators through
+    calls by name (following `from direct.… import …`), and every use of state that survives a call in them: caching decorators,
+    `global` / `nonlocal`, reads or writes of module-level non-constant bindings, function attributes, mutable default arguments"""
+    todo = [(rel, r) for r in roots]
+    seen, closure, uses = set(), [], []
+    while todo:
+        f, name = todo.pop(0)
+        if (f, name) in seen:
+            continue
+        seen.add((f, name))
+        tree, defs, imported, state = _module_info(repo, f)
+        fn = defs.get(name)
+        if fn is None:
+            if (f, name) in [(rel, r) for r in roots]:
+                raise Untranslatable(f"{name} not found in {f}")
+            continue
+        closure.append((f, name))
+        q = name if f == rel else f"{f}:{name}"
+        for d in fn.decorator_list:
+            uses.append((q, "decorator", ast.unparse(d)[:60]))
+        a = fn.args
+        for arg, d in list(zip((a.posonlyargs + a.args)[::-1], a.defaults[::-1])) + [(x, y) for x, y in zip(a.kwonlyargs, a.kw_defaults) if y is not None]:
+            if isinstance(d, (ast.List, ast.Dict, ast.Set, ast.ListComp, ast.DictComp)) or \
+                    (isinstance(d, ast.Call) and ast.unparse(d.func) in ("dict", "list", "set", "torch.empty", "torch.zeros")):
+                uses.append((q, "mutable-default", arg.arg))
+        local = {x.arg for x in a.posonlyargs + a.args + a.kwonlyargs} | {x.id for x in ast.walk(fn) if isinstance(x, ast.Name) and isinstance(x.ctx, ast.Store)}
+        declared_global = set()
+        for n in ast.walk(fn):
+            if isinstance(n, (ast.Global, ast.Nonlocal)):
+                declared_global.update(n.names)
+                uses.extend((q, "global", g) for g in n.names)
+        for n in ast.walk(fn):
+            if isinstance(n, ast.Name):
+                if n.id in state and (n.id not in local or n.id in declared_global):
+                    uses.append((q, "module-state", n.id))
+                elif isinstance(n.ctx, ast.Load) and n.id not in local:
+                    if n.id in defs:
+                        todo.append((f, n.id))
+                    elif n.id in imported:
+                        todo.append(imported[n.id])
+            if isinstance(n, ast.Attribute) and isinstance(n.value, ast.Name) and (n.value.id in defs or n.value.id in imported) \
+                    and n.value.id not in local and (isinstance(n.ctx, ast.Store) or any(w in n.attr.lower() for w in _CACHE_WORDS)):
+                uses.append((q, "function-attribute", ast.unparse(n)[:60]))
+            if isinstance(n, ast.Call) and ast.unparse(n.func) in ("setattr", "getattr") and n.args and isinstance(n.args[0], ast.Name) \
+                    and (n.args[0].id in defs or n.args[0].id in imported):
+                uses.append((q, "function-attribute", ast.unparse(n)[:60]))
+    uses = sorted(set(uses))
+    return closure, uses
+
+
+def _helper_state_text():
+    from ..gen import REPO
+
+    closure, uses = scan_helper_state(REPO)
+    rows = ",\n".join(f"  ({_lean_str(a)}, {_lean_str(b)}, {_lean_str(c)})" for a, b, c in uses)
+    cl = ", ".join(_lean_str(n if f == T else f"{f}:{n}") for f, n in closure)
+    text = (f"def helper_closure : List String := [{cl}]\n\n"
+            f"def helper_state_uses : List (String × String × String) := [\n{rows}]\n")
+    return text, f"translated ({len(closure)} functions reachable from {len(C02_ROOTS)} operators, {len(uses)} state uses)"
+
+
 def _c02_extra():
     from ..gen import REPO, find_function, parse_file
 
@@ -484,6 +592,15 @@ def _c02_extra():
     except Untranslatable as e:
         out.append(f"/-- SKIPPED ({e}) -/\ndef coil_sites : List Cx.CoilSite := []\n")
         status["coil_sites"] = f"skipped: {e}"
+    try:
+        text, st = _helper_state_text()
+        out.append("/-- translated: functions reachable from the C02 operators and every use of call-surviving state in them -/\n" + text)
+        status["helper_state_uses"] = st
+    except Untranslatable as e:
+        roots = ", ".join(f'"{r}"' for r in C02_ROOTS)
+        out.append(f"/-- SKIPPED ({e}) -/\ndef helper_closure : List String := [{roots}]\n\n"
+                   "def helper_state_uses : List (String × String × String) := []\n")
+        status["helper_state_uses"] = f"skipped: {e}"
     for fname in ("complex_multiplication", "complex_division"):
         emit(f"{fname}_cat", lambda fname=fname: f"def {fname}_cat : List String := {_cat_order(find_function(tree, fname))}\n",
              f'def {fname}_cat : List String := ["real_part", "imaginary_part"]\n')
